@@ -342,20 +342,19 @@ theorem inv_opClear {cfg : Cfg} {s : State} (i : Inv s) (g : Id) : Inv (opClear 
 theorem inv_opDelitem {cfg : Cfg} {s : State} (i : Inv s) (g : Id) (k : Int) : Inv (opDelitem cfg s g k).1 := by
   unfold opDelitem
   simp only
-  have i1 := (updateRecord_same cfg s g).inv i
   split
-  · exact i1
-  · exact inv_shrink i1 g _ ((List.eraseIdx_sublist ..).nodup (i1.nodup g))
+  · exact i
+  · apply inv_finishRemove
+    exact inv_shrink i g _ ((List.eraseIdx_sublist ..).nodup (i.nodup g))
       (fun y hy => (List.eraseIdx_sublist ..).subset hy)
 
 theorem inv_opDelslice {cfg : Cfg} {s : State} (i : Inv s) (g : Id) (a b : Option Int) :
     Inv (opDelslice cfg s g a b).1 := by
   unfold opDelslice
   simp only [sliceAssign, List.append_nil]
-  have i1 := (updateRecord_same cfg s g).inv i
-  have hsub := take_append_drop_sublist ((updateRecord cfg s g).children g)
-    (sliceBounds_le ((updateRecord cfg s g).children g).length a b)
-  exact inv_shrink i1 g _ (hsub.nodup (i1.nodup g)) (fun y hy => hsub.subset hy)
+  have hsub := take_append_drop_sublist (s.children g) (sliceBounds_le (s.children g).length a b)
+  apply inv_finishRemove
+  exact inv_shrink i g _ (hsub.nodup (i.nodup g)) (fun y hy => hsub.subset hy)
 
 /-! ### the operations of `Layer` -/
 
